@@ -56,6 +56,7 @@ func (e *Engine) verifyFunction(fn *ssa.Function, con *Contract, pathLimit int) 
 		lockSnap: map[string]*HeapSnap{}, ghost: map[string]Term{}, epoch: "0"}
 	st.alloc = baseHeap("0", "alloc", []Sort{SInt}, SBool)
 	st.alloc0 = st.alloc
+	st.epochAlloc = st.alloc
 	reg.declare("u_clock0", "(declare-const u_clock0 Int)")
 	st.clock = Term{"u_clock0", SInt}
 	st.clock0 = st.clock
